@@ -158,6 +158,8 @@ func init() {
 		"sort":                 "sort",
 		"granularity":          "g",
 		"noinlines":            "noinlines",
+		"tagroot":              "tagroot",
+		"tagleaf":              "tagleaf",
 		"showcolumns":          "showcolumns",
 	}
 
